@@ -792,11 +792,31 @@ func wireIntegerSinks(c *core.Ctx, d *decoderSet, ruleAlloc, ruleLoop string, ne
 				}
 				return cs.callConsumes(call)
 			}
+			// an iteration also counts as consuming on the edges where the bytes a
+			// signature reader returned are known to be non-empty: readers return
+			// exactly what they consumed (rule C02/C03.readers)
+			isReadLen := func(v ssa.Value) bool {
+				cl, ok := core.StripConv(v).(*ssa.Call)
+				if !ok {
+					return false
+				}
+				bi, ok := cl.Call.Value.(*ssa.Builtin)
+				if !ok || bi.Name() != "len" {
+					return false
+				}
+				src, idx := core.CallResult(core.Canon(cl.Call.Args[0]))
+				if src == nil || idx != 0 {
+					return false
+				}
+				cc := src.Common()
+				return cc.IsInvoke() && cc.Method.Name() == "Read" && len(cc.Args) == 1
+			}
+			nonEmpty := core.CutEstablishing(core.NonZero(isReadLen))
 			// body entry: the successor from which the header is reachable again
 			consumes := true
 			for si, s := range h.Succs {
 				_ = si
-				r := core.ReachFrom(core.Point{B: s, I: 0}, isC, nil)
+				r := core.ReachFrom(core.Point{B: s, I: 0}, isC, nonEmpty)
 				if r.Has(h.Instrs[0]) {
 					// can we come back to the header without consuming?
 					consumes = false
